@@ -198,15 +198,15 @@ def check(ctx):
                 for gid in range(1 << 15):
                     sel.add(g.index_of(M.canon_unsigned(M.graph_state_gens(6, M.graph_id_to_masks(6, gid)), 6)))
                 ctx.count("graph_states_located", 1 << 15)
-                # first 64 members of every component in BFS order
+                # first 256 members of every component in BFS order
                 order = np.argsort(g.comp, kind="stable")
                 starts = np.searchsorted(g.comp[order], np.arange(g.K))
                 for c in range(g.K):
-                    sel.update(int(v) for v in order[starts[c]:starts[c] + 64] if g.comp[v] == c)
+                    sel.update(int(v) for v in order[starts[c]:starts[c] + 256] if g.comp[v] == c)
                 # a complete residue class of the BFS order
-                sel.update(range(0, g.N, 128))
+                sel.update(range(0, g.N, 16))
                 idxs, ids = explore(ctx, n, np.array(sorted(sel)), 0,
-                                    "all 32768 graph states + first 64 members of each of the 760 components + every 128th state")
+                                    "all 32768 graph states + first 256 members of each of the 760 components + every 16th state (residue class R16)")
                 explore(ctx, n, g.first_of_component(), FLAG_SIGNS | FLAG_PRES1, "first member of every component: presentations + signs")
                 complete = False
                 ctx.count("transitions", len(idxs) * 12)
